@@ -1,9 +1,137 @@
-/- C17 — executable model (core Lean only).  Stub. -/
+/-
+C17 — executable model of the clamps (`optimize/clamps/*.py`) and links (`optimize/links.py`), exact rationals.
+
+* `LineClamp`: `p1 + t·unit(p2 − p1)`; the length `|p2 − p1|` enters as a witness `s` (`s·s = |p2 − p1|²`);
+* `PlaneClamp`: `point + a·u + b·v` for two directions `u, v` of the plane (the real class draws them at random;
+  the harness reads them off `clamp.function`);
+* `RadialClamp`: the creation point turned about the axis `(center, normal)`; the angle `t/radius` is
+  parametrised by an unnormalised quaternion `(w, μ·normal)` exactly as in C09 (`θ = 2·atan2(|μ n|, w)`);
+* initial parameters (`ClampBase.get_params`, a scipy minimisation of the distance): the closed-form closest point
+  on the segment / plane (`lineInit`, `planeInit`) — the minimiser is an oracle, its result is compared with these;
+* `TranslationLink`, `SymmetryLink` (Householder mirror, C09's `mirP`), `RotationLink` (when the leader moves by a
+  rotation about the link's axis the follower is turned by the same rotation; for an arbitrary move the relation
+  "same height, same radius, turned by the leader's angle" is the decidable predicate `rotValid`);
+* `LinkBase.update`: a pure function returning the new follower; the leader is not part of the result.
+Core Lean only.
+-/
 import CBV.Model.Common
+import CBV.Model.C09
 import CBV.Gen.Tables
 
 namespace CBV.C17
+open CBV
+open CBV.C09 (rotP rotLin mirP mirLin)
 
-def handle (_op : String) (_args : List String) : Option String := none
+/-! ### clamps -/
+
+/-- `LineClamp.function([t])` with `s = |p2 − p1|` -/
+def lineClamp (p1 p2 : V3) (s t : Rat) : V3 := p1 + V3.smul (t / s) (p2 - p1)
+
+def clampTo (lo hi x : Rat) : Rat := if x < lo then lo else if hi < x then hi else x
+
+/-- the parameter (in units of length, like the clamp's) of the point of the segment `lo ≤ t ≤ hi` closest to `pos` -/
+def lineInitParam (p1 p2 : V3) (s lo hi : Rat) (pos : V3) : Rat :=
+  clampTo lo hi (V3.dot (pos - p1) (p2 - p1) / s)
+
+/-- position a fresh `LineClamp` reports -/
+def lineInit (p1 p2 : V3) (s lo hi : Rat) (pos : V3) : V3 := lineClamp p1 p2 s (lineInitParam p1 p2 s lo hi pos)
+
+/-- `PlaneClamp.function([a, b])` -/
+def planeClamp (point u v : V3) (a b : Rat) : V3 := point + V3.smul a u + V3.smul b v
+
+/-- orthogonal projection of `pos` onto the plane through `point` with normal `n`: what a fresh `PlaneClamp` reports -/
+def planeInit (point n pos : V3) : V3 := pos - V3.smul (V3.dot (pos - point) n / V3.dot n n) n
+
+/-- `RadialClamp.function([t])`: the creation point turned about the axis by `θ = 2·atan2(|μ n|, w)` (`t = θ·radius`) -/
+def radialClamp (center n : V3) (w mu : Rat) (initial : V3) : V3 := rotP w (V3.smul mu n) center initial
+
+/-! ### links -/
+
+structure Link where
+  leader : V3
+  follower : V3
+  deriving Repr, DecidableEq
+
+/-- `TranslationLink`: `vector = follower − leader` at construction, `transform = leader + vector` -/
+def translationLink (l0 f0 l1 : V3) : V3 := l1 + (f0 - l0)
+
+/-- `SymmetryLink.transform`: `functions.mirror(leader, normal, origin)` (a pure function after the repair) -/
+def symmetryLink (n o l1 : V3) : V3 := mirP n o l1
+
+/-- `RotationLink.transform` when the leader has been turned about the link's axis by the quaternion `(w, a)` -/
+def rotationLink (w : Rat) (a o f0 : V3) : V3 := rotP w a o f0
+
+/-- `LinkBase.update()`: the follower becomes `transform()`, the leader stays what the caller set it to -/
+def Link.update (l : Link) (transform : V3 → V3) : Link := { leader := l.leader, follower := transform l.leader }
+
+/-- radius vector of `p` about the axis `(o, a)`, times `|a|²` (no division): `|a|²(p − o) − ((p − o)·a) a` -/
+def radial (a o p : V3) : V3 := V3.smul (V3.dot a a) (p - o) - V3.smul (V3.dot (p - o) a) a
+
+def absR (x : Rat) : Rat := if x < 0 then -x else x
+
+/-- "the follower `f1` is the original follower `f0` turned about the axis by the angle the leader turned":
+    same height, same radius, and the (cos, sin) of the turn — cross-multiplied by the squared radii — agree.
+    With `eps = 0` this is the exact relation. -/
+def rotValid (a o l0 l1 f0 f1 : V3) (eps : Rat) : Option String :=
+  let rl0 := radial a o l0; let rl1 := radial a o l1
+  let rf0 := radial a o f0; let rf1 := radial a o f1
+  let aa := V3.dot a a
+  let scale := 1 + aa * aa * aa * (V3.norm2 (l0 - o) + V3.norm2 (f0 - o)) * (V3.norm2 (l0 - o) + V3.norm2 (f0 - o))
+  if absR (V3.dot (f1 - o) a - V3.dot (f0 - o) a) > eps * (1 + aa + V3.norm2 (f0 - o)) then some "height"
+  else if absR (V3.norm2 rf1 - V3.norm2 rf0) > eps * scale then some "radius"
+  -- cos: (rf0·rf1)|rl0||rl1| = (rl0·rl1)|rf0||rf1| ; the leader keeps its radius in the intended use, so the
+  -- squared form below is exact then and a sound relaxation otherwise
+  else if absR (V3.dot rf0 rf1 * V3.norm2 rl0 - V3.dot rl0 rl1 * V3.norm2 rf0) > eps * scale * scale
+      && absR (V3.norm2 rl1 - V3.norm2 rl0) ≤ eps * scale then some "cos"
+  else if absR (V3.dot (V3.cross rf0 rf1) a * V3.norm2 rl0 - V3.dot (V3.cross rl0 rl1) a * V3.norm2 rf0) > eps * scale * scale * (1 + aa)
+      && absR (V3.norm2 rl1 - V3.norm2 rl0) ≤ eps * scale then some "sin"
+  else none
+
+/-! ### line protocol -/
+
+def witnessOk (s : Rat) (d : V3) (eps : Rat) : Bool := s > 0 && absR (s * s - V3.dot d d) ≤ eps * (1 + V3.dot d d)
+
+def handle (op : String) (args : List String) : Option String :=
+  match op, args with
+  | "c17.line", [p1, p2, s, t] => do
+      let p1 ← parseV3? p1; let p2 ← parseV3? p2; let s ← parseRat? s; let t ← parseRat? t
+      if !witnessOk s (p2 - p1) (1 / 1000000000) then some "bad-witness" else
+      some (lineClamp p1 p2 s t).toStr
+  | "c17.lineinit", [p1, p2, s, lo, hi, pos] => do
+      let p1 ← parseV3? p1; let p2 ← parseV3? p2; let s ← parseRat? s
+      let lo ← parseRat? lo; let hi ← parseRat? hi; let pos ← parseV3? pos
+      if !witnessOk s (p2 - p1) (1 / 1000000000) then some "bad-witness" else
+      if hi < lo then some "bad-bounds" else
+      some ((lineInit p1 p2 s lo hi pos).toStr ++ " " ++ showRat (lineInitParam p1 p2 s lo hi pos))
+  | "c17.plane", [point, u, v, a, b] => do
+      let point ← parseV3? point; let u ← parseV3? u; let v ← parseV3? v
+      let a ← parseRat? a; let b ← parseRat? b
+      some (planeClamp point u v a b).toStr
+  | "c17.planeinit", [point, n, pos] => do
+      let point ← parseV3? point; let n ← parseV3? n; let pos ← parseV3? pos
+      if V3.dot n n == 0 then some "degenerate" else
+      some (planeInit point n pos).toStr
+  | "c17.radial", [center, n, w, mu, initial] => do
+      let center ← parseV3? center; let n ← parseV3? n; let w ← parseRat? w; let mu ← parseRat? mu
+      let initial ← parseV3? initial
+      if w * w + V3.dot (V3.smul mu n) (V3.smul mu n) == 0 then some "degenerate" else
+      some (radialClamp center n w mu initial).toStr
+  | "c17.tlink", [l0, f0, l1] => do
+      let l0 ← parseV3? l0; let f0 ← parseV3? f0; let l1 ← parseV3? l1
+      some ((Link.update ⟨l1, f0⟩ (translationLink l0 f0)).follower).toStr
+  | "c17.slink", [n, o, l1] => do
+      let n ← parseV3? n; let o ← parseV3? o; let l1 ← parseV3? l1
+      if V3.dot n n == 0 then some "degenerate" else
+      some ((Link.update ⟨l1, l1⟩ (symmetryLink n o)).follower).toStr
+  | "c17.rlink", [w, a, o, l0, f0] => do
+      -- leader moved from l0 by the rotation (w, a) about o; answers new leader and new follower
+      let w ← parseRat? w; let a ← parseV3? a; let o ← parseV3? o; let l0 ← parseV3? l0; let f0 ← parseV3? f0
+      if V3.dot a a == 0 then some "degenerate" else
+      some ((rotP w a o l0).toStr ++ " " ++ (rotationLink w a o f0).toStr)
+  | "c17.rvalid", [a, o, l0, l1, f0, f1, eps] => do
+      let a ← parseV3? a; let o ← parseV3? o; let l0 ← parseV3? l0; let l1 ← parseV3? l1
+      let f0 ← parseV3? f0; let f1 ← parseV3? f1; let eps ← parseRat? eps
+      some (match rotValid a o l0 l1 f0 f1 eps with | none => "ok" | some c => "fail " ++ c)
+  | _, _ => none
 
 end CBV.C17
